@@ -345,6 +345,10 @@ func implRun(v *view, p *Prog, timeout time.Duration) (res outcome) {
 			return outcome{Status: "cycle"}
 		case strings.Contains(msg, "unable to find source related to") || strings.Contains(msg, "no Go files in"):
 			return outcome{Status: "notfound"}
+		case strings.Contains(msg, "must be imported as"):
+			return outcome{Status: "notallowed"}
+		case strings.Contains(msg, "not in GOPATH"):
+			return outcome{Status: "notingopath"}
 		case ctx.Err() != nil:
 			return outcome{Status: "timeout"}
 		}
@@ -416,7 +420,7 @@ func childMain() {
 // ---------------------------------------------------------------- model line
 
 // progLine renders the program for the driver:
-//   imports FS gopath wd name (PKG…) specstart (imports…)
+//   imports FS gopath wd name (PKG…) maindir gta|direct (imports…) (imports of the main file)
 func progLine(v *view, p *Prog, wd string) string {
 	var pk []string
 	dirOf := func(d string) string { return v.abs(d) }
@@ -463,12 +467,16 @@ func progLine(v *view, p *Prog, wd string) string {
 		imports = []string{imp}
 	}
 	_ = specstart
+	via := "gta" // the imports of a main file pass through gta; the argument of EvalPath does not
+	if p.Entry == "path" || p.Entry == "dot" {
+		via = "direct"
+	}
 	maindir := v.abs(p.mainDir(v.t))
 	if p.mainDir(v.t) == "." {
 		maindir = "." // the working directory
 	}
 	return "C16 imports " + v.fsTerm + " " + common.Q(v.goPath()) + " " + common.Q(wd) + " " + common.Q(name) + " " +
-		common.L(pk...) + " " + common.Q(maindir) + " " + common.QL(imports) + " " + common.QL(p.Imports)
+		common.L(pk...) + " " + common.Q(maindir) + " " + via + " " + common.QL(imports) + " " + common.QL(p.Imports)
 }
 
 // modelOutcome parses the y= / g= field of the driver: ok:<dirs> | cycle:<p> | notfound:<p> | err | fuel
@@ -497,6 +505,8 @@ func modelOutcome(v *view, p *Prog, s string) outcome {
 		return outcome{Status: "notfound"}
 	case strings.HasPrefix(s, "notallowed"):
 		return outcome{Status: "notallowed"}
+	case strings.HasPrefix(s, "notingopath"):
+		return outcome{Status: "notingopath"}
 	}
 	return outcome{Status: s}
 }
@@ -548,12 +558,9 @@ func genProg(r *rand.Rand, ft features, disk bool) (*Tree, *Prog) {
 	}
 	p := &Prog{Pkgs: pkgs}
 	// entry
-	entries := []string{"eval", "eval", "path", "path", "top"}
-	if ft.Wild {
-		entries = append(entries, "file", "file")
-		if disk {
-			entries = append(entries, "dot")
-		}
+	entries := []string{"eval", "eval", "path", "path", "top", "file", "file"}
+	if disk {
+		entries = append(entries, "dot")
 	}
 	p.Entry = pick(r, entries)
 	if p.Entry == "path" || p.Entry == "file" || p.Entry == "dot" {
@@ -576,12 +583,12 @@ func genProg(r *rand.Rand, ft features, disk bool) (*Tree, *Prog) {
 		default:
 			p.Main = "zmain"
 		}
-		if ft.Wild && r.Intn(4) == 0 {
+		for n := r.Intn(3); n > 0; n-- {
 			// main's own vendor directory
 			ip := pick(r, ips)
 			rel := p.Main + "/vendor/" + ip
 			k := &pkgInfo{Dir: gp + "/src/" + rel, Rel: rel, IPath: ip, Name: pkgName(ip)}
-			if !hasPkg(pkgs, k.Dir) {
+			if !hasPkg(p.Pkgs, k.Dir) {
 				p.Pkgs = append(p.Pkgs, k)
 				t.Files[k.Dir+"/"+k.Name+".go"] = "package " + k.Name + "\n"
 				v = newView(t, false, "")
@@ -618,8 +625,17 @@ func genProg(r *rand.Rand, ft features, disk bool) (*Tree, *Prog) {
 					k.Imports = append(k.Imports, ip)
 				}
 			}
-			if ft.Wild && j > 0 && r.Intn(2) == 0 {
-				k.Imports = append(k.Imports, "../rel1")
+			if j > 0 && r.Intn(2) == 0 {
+				k.Imports = append(k.Imports, "../rel1") // the directory main imports as ./rel1 (F16-10)
+			}
+			if r.Intn(3) == 0 {
+				// a package below a relatively imported one, reached as ./sub from it and as ./relN/sub from main
+				sub := &pkgInfo{Dir: d + "/sub", Rel: "", IPath: "./" + d + "/sub", Name: "sub" + fmt.Sprint(j+1)}
+				p.Pkgs = append(p.Pkgs, sub)
+				k.Imports = append(k.Imports, "./sub")
+				if r.Intn(2) == 0 {
+					p.Imports = append(p.Imports, "./"+d+"/sub")
+				}
 			}
 			p.Pkgs = append(p.Pkgs, k)
 			p.Imports = append(p.Imports, "./"+d)
@@ -648,6 +664,52 @@ func genProg(r *rand.Rand, ft features, disk bool) (*Tree, *Prog) {
 			}
 		}
 	}
+	// an import path with a vendor element (F16-3): rejected by the toolchain and by importSrc alike
+	if r.Intn(12) == 0 {
+		k := pkgs[r.Intn(len(pkgs))]
+		if i := strings.Index(k.Rel, "vendor/"); i >= 0 && (i == 0 || k.Rel[i-1] == '/') {
+			ip := k.Rel[i:]
+			if r.Intn(2) == 0 {
+				ip = k.Rel
+			}
+			if q := pkgs[r.Intn(len(pkgs))]; r.Intn(2) == 0 && q != k {
+				q.Imports = append(q.Imports, ip)
+			} else {
+				p.Imports = append(p.Imports, ip)
+			}
+		}
+	}
+	// an import that the Go rule does not resolve from the importing package: unknown everywhere, or known only
+	// to the vendor directory of the main package, or of another package
+	if r.Intn(10) == 0 {
+		k := pkgs[r.Intn(len(pkgs))]
+		var cands []string
+		for _, q := range p.Pkgs {
+			if q.IPath != k.IPath && !isRel(q.IPath) && resolveDir(k.Rel, q.IPath) == "" {
+				cands = append(cands, q.IPath)
+			}
+		}
+		cands = append(cands, "nowhere/"+pick(r, elemNames))
+		k.Imports = append(k.Imports, pick(r, cands))
+	}
+	// F16-11: a package outside the main package imports what only the main package's vendor directory holds
+	if p.Entry == "file" && r.Intn(4) == 0 {
+		ip := "onlymain/" + pick(r, elemNames)
+		rel := p.Main + "/vendor/" + ip
+		q := &pkgInfo{Dir: gp + "/src/" + rel, Rel: rel, IPath: ip, Name: pkgName(ip)}
+		p.Pkgs = append(p.Pkgs, q)
+		t.Files[q.Dir+"/"+q.Name+".go"] = "package " + q.Name + "\n"
+		v = newView(t, false, "")
+		p.Imports = append(p.Imports, ip)
+		k := pkgs[r.Intn(len(pkgs))]
+		if resolveDir(k.Rel, ip) == "" || r.Intn(3) == 0 {
+			k.Imports = append(k.Imports, ip)
+		}
+	}
+	if md := p.mainDir(t); md != "." {
+		t.Files[md+"/main.go"] = "package main\n"
+	}
+	addOddities(r, t, p.Pkgs)
 	p.fill(t)
 	return t, p
 }
